@@ -93,6 +93,16 @@ theorem C10_width_independent (i : IDL) (w1 w2 : Nat) :
     squash (multiline i 0 w1) = squash (multiline i 0 w2) := by
   rw [squash_multiline, squash_multiline]
 
+/-- **no ambient state**: the rendering is a function of the definition and the width alone — of the
+    name, the documentation and the three member lists, nothing else (no process-wide switch, no
+    earlier or concurrent call).  This is why the concurrent cases of suite `fmt` (N threads rendering
+    at once with colour forced on) expect, for every thread, simply the sequential value, and why
+    `varlink format FILE` must print `multiline` of the definition parsed from the file's bytes. -/
+theorem C10_depends_only_on_definition (i i' : IDL) (h1 : i'.name = i.name) (h2 : i'.doc = i.doc)
+    (h3 : tList i' = tList i) (h4 : mList i' = mList i) (h5 : eList i' = eList i) (indent max : Nat) :
+    multiline i' indent max = multiline i indent max :=
+  multiline_congr i i' h1 h2 h3 h4 h5 indent max
+
 /-- `Display` is the width-80 rendering -/
 theorem C10_display (i : IDL) : display i = multiline i 0 80 := rfl
 
